@@ -145,6 +145,11 @@ func (ctx *Context) IsCalculateExists() bool {
 }
 
 func (ctx *Context) RunAfterParsed() error {
+	if ctx.parser == nil {
+		// 还没有调用过 Parse
+		ctx.Error = errors.New("尚未解析任何语句，无法执行")
+		return ctx.Error
+	}
 	ctx.IsComputedLoaded = false
 	// 以下为eval
 	ctx.evaluate()
